@@ -237,6 +237,12 @@ fn parse(text: &str, allow_substvar: bool) -> Parse {
                     self.error("Expected version".to_string());
                 }
 
+                // Policy 7.1: whitespace may appear at any point in the
+                // version specification, also in front of the ')'
+                if self.peek_past_ws() == Some(R_PARENS) {
+                    self.skip_ws();
+                }
+
                 if self.current() == Some(R_PARENS) {
                     self.bump();
                 } else {
